@@ -36,6 +36,10 @@ def parse_iso(s):
 def convert(leaf, v, tr, tables):
     """tagged expected value of token v (None = blank) for a leaf under conversion tr"""
     k, e, t = leaf["k"], leaf["e"], leaf["t"]
+    if isinstance(v, (bytes, bytearray)):
+        v = bytes(v).decode("ascii")  # verbatim (e.g. left-justified) ASCII token
+    if isinstance(v, tuple) and k == "ac":
+        v = tuple(x.decode("ascii") if isinstance(x, (bytes, bytearray)) else x for x in v)
     if tr == "enum" or (t and tr == ""):
         lab = [lab for lab, code in tables[t] if str(code) == str(v).strip()]
         return ("U", lab[0]) if lab else ("invalid-code", v)
@@ -47,6 +51,11 @@ def convert(leaf, v, tr, tables):
     if k == "af":
         if v is None or (isinstance(v, str) and not v.strip()):
             return ("f", float("nan"))
+        if e:
+            # scaled: the exactly scaled rational rounded once, or the double product / quotient (double rounding of
+            # subnormal or huge inputs is not a defect) -- all three are "the value converted with the scale factor"
+            x = exact_float(v, 0)
+            return ("f-any", (exact_float(v, e), x * 10.0**e, x / 10.0**(-e)))
         return ("f", exact_float(v, e))
     if k == "ac":
         if v is None:
@@ -89,7 +98,7 @@ def designator_cond(built):
     return {"utm": "utm", "ups": "ups", "lcc": "nsp", "mer": "nsp"}.get(des)
 
 
-def expectations(built, files=("VOL", "LED", "IMG"), skip_tr=("att_time", "nested", "pp_datetime")):
+def expectations(built, files=("VOL", "LED", "IMG"), skip_tr=("att_time", "pp_datetime")):
     """-> list of Expectation for every mapped field of the product"""
     om = L.outmap()
     tables = L.tables()
@@ -128,6 +137,8 @@ def expectations(built, files=("VOL", "LED", "IMG"), skip_tr=("att_time", "neste
                         continue
                     e = Expectation(node=node, name=m["n"], kind=m["k"], dims=m["d"], ix=ix, unit=leaf["u"], tr=m["tr"],
                                     src=f"{fkey}:{rec['name']}#{nth}:{path}@{line}", present=True, ulp=4)
+                    if isinstance(v, (bytes, bytearray)) and leaf["k"] in ("ai", "af", "s"):
+                        v = bytes(v).decode("ascii")
                     if m["tr"] == "ydms":
                         e.value = ("M", ns_of(ydms_instant(*v)))
                     elif m["tr"] == "ydus":
@@ -155,6 +166,11 @@ def check(proj, exps):
     """compare a projected tree with expectations -> list of (expectation, message)"""
     bad = []
     for e in exps:
+        if e.tr == "nested":
+            msg = check_nested(proj, e)
+            if msg:
+                bad.append((e, msg))
+            continue
         g = proj.get(e.node)
         if g is None:
             bad.append((e, f"group {e.node} missing"))
@@ -195,6 +211,36 @@ def check(proj, exps):
     return bad
 
 
+def check_nested(proj, e):
+    """level-1.1 nested per-line struct field `outer.inner`: placement is not prescribed -- any numeric per-line variable
+    under the image group whose qualified name contains both components must hold the written value"""
+    import re
+
+    outer, inner = e.name.split(".")
+    want_tokens = set(re.split(r"[^a-z0-9]+", outer)) | {inner}
+    found = False
+    for node, g in proj.items():
+        if not (node == e.node or node.startswith(e.node + "/")):
+            continue
+        for name, v in g["vars"].items():
+            q = (node[len(e.node):] + "/" + name).lower()
+            toks = set(re.split(r"[^a-z0-9]+", q))
+            if not want_tokens <= toks:
+                continue
+            found = True
+            flat = v.get("values") or []
+            if v.get("loaded_kind") not in ("i", "u", "f"):
+                return f"nested field {e.name} surfaces in {node}:{name} with dtype kind {v.get('loaded_kind')!r} (not numeric)"
+            if e.ix >= len(flat) or not value_matches(flat[e.ix], e.value, e.ulp):
+                return f"nested field {e.name}: {node}:{name}[{e.ix}] = {flat[e.ix] if e.ix < len(flat) else None}, expected {e.value}"
+            if e.unit and v["attrs"].get("units") != ("U", e.unit):
+                return f"nested field {e.name}: units {v['attrs'].get('units')}, expected {e.unit!r}"
+            return None
+    if not found:
+        return f"nested field {e.name}: no numeric per-line variable whose qualified name contains both components"
+    return None
+
+
 def value_matches(got, want, ulp=4):
     if want[0] == "instant":
         if got[0] != "U":
@@ -203,6 +249,8 @@ def value_matches(got, want, ulp=4):
             return parse_iso(got[1]) == want[1]
         except ValueError:
             return False
+    if want[0] == "f-any":
+        return got[0] == "f" and any(project._feq(got[1], w, ulp) for w in want[1])
     if want[0] == "f" and got[0] == "f":
         return project._feq(got[1], want[1], ulp)
     return project.same_value(got, want, ulp)
